@@ -29,7 +29,10 @@ class Environment:
 
         self.constants[name] = value
 
-        if name not in self.types:
+        # the inferred type follows the latest constant (a declared annotation stays)
+        if name not in self.types or not isinstance(
+            self.types[name], (ast.Subscript, ast.Name, str)
+        ):
             self.types[name] = value
 
     def copy_type(self, origin, dest):
